@@ -800,6 +800,13 @@ func GenCopyingCase(r *hx.RNG) *Case {
 			if !t.Fail && r.Chance(2, 3) && t.Opt == nil {
 				t.Opt = newOPT(1232, r.Bool(), 0, GenOptions(r, 24))
 			}
+			if !t.Fail && r.Chance(1, 4) {
+				// an extended rcode: it needs an OPT to travel in, upstream and downstream
+				t.Rcode = hx.Pick(r, []int{16, 17, 18, 19, 20, 21, 22, 23, 4095})
+				if t.Opt == nil {
+					t.Opt = newOPT(1232, false, 0, nil)
+				}
+			}
 			ts = append(ts, t)
 		}
 		c.Scripts = append(c.Scripts, ts)
